@@ -34,7 +34,7 @@ class C11(Check):
     COMPONENTS = {'real': ['Lark.save / Lark.load / _load, cache branch of Lark.__init__, lark.tools.standalone.gen_standalone + generated module, pickle',
                            'child CPython interpreters with chosen PYTHONHASHSEED', 'a real temporary directory between nodes (removed after the run)'],
                   'simulated': ['which node runs under which hash seed, generation chain length, probe selection (seeded plan)'],
-                  'stubbed': [], 'not_exercised': ['python -m lark.tools.standalone command line (gen_standalone is called directly)', 'grammars outside the corpus']}
+                  'stubbed': [], 'not_exercised': ['grammars outside the corpus and the generator of sim/gramgen.py']}
     ASSUMPTIONS = ['the grammar/input dimension is sampled from the corpus in sim/workload.py (built to touch every serialised field) and its sentence generator',
                    'stand-alone modules are generated from an instance without user objects; transformer / postlex / lexer_callbacks are passed to Lark_StandAlone(), as documented',
                    'classes of the stand-alone module are compared by name']
@@ -89,7 +89,8 @@ class C11(Check):
                 spec['probes'] = self._probes(rng, p, e, lambda st: W.gen_text(rng, cfg, p, st))
             cases.append(spec)
         hs = {k: rng.randrange(1, 1 << 31) for k in ('B', 'L1', 'L2', 'L3', 'D')}
-        return {'cases': cases, 'hashseeds': hs, 'gens': rng.choice([1, 2, 2, 3]), 'standalone': rng.random() < 0.8}
+        return {'cases': cases, 'hashseeds': hs, 'gens': rng.choice([1, 2, 2, 3]), 'standalone': rng.random() < 0.8,
+                'cli': rng.choice([False, False, 'plain', 'compress'])}
 
     def execute(self, plan, forced=None):
         out = Outcome()
@@ -114,7 +115,11 @@ class C11(Check):
                 out.stats['node_error:' + (err or '')[:80]] = 1
                 return None
             return tr['t']
-        tB = run('B', [{'do': 'build', 'cfg': c, 'standalone': plan['standalone']} for c in cfgs])
+        def cli_ok(case):
+            o = case['options']
+            return plan.get('cli') and not case.get('user') and 'g_regex_flags' not in o and not o.get('strict') and case.get('input_kind', 'str') == 'str'
+        cli = {c['name']: bool(cli_ok(c)) for c in plan['cases']}
+        tB = run('B', [{'do': 'build', 'cfg': c, 'standalone': plan['standalone'], 'cli': cli[c], 'compress_cli': plan.get('cli') == 'compress'} for c in cfgs])
         if tB is None:
             return
         steps = []
@@ -124,6 +129,8 @@ class C11(Check):
             if plan['standalone']:
                 steps.append({'do': 'standalone', 'cfg': c})
                 steps.append({'do': 'standalone_compressed', 'cfg': c})
+            if cli[c]:
+                steps.append({'do': 'standalone_cli', 'cfg': c})
         tL1 = run('L1', steps)
         tD = run('D', [{'do': 'direct', 'cfg': c} for c in cfgs])
         if tL1 is None or tD is None:
